@@ -103,7 +103,7 @@ func TestVerifWireDNSReg(t *testing.T) {
 		}
 		deliver("", raw)
 		if r.wantMut(row) {
-			for _, m := range vwMutations(raw, r.rng, r.maxTrunc, r.nflip) {
+			for _, m := range r.muts(row, raw) {
 				deliver(fmt.Sprintf("%s@%d", m.Kind, m.Pos), m.Raw)
 			}
 		}
@@ -603,7 +603,7 @@ func TestVerifWireResponder(t *testing.T) {
 		}
 		deliver("", raw)
 		if r.wantMut(row) {
-			for _, m := range vwMutations(raw, r.rng, r.maxTrunc, r.nflip) {
+			for _, m := range r.muts(row, raw) {
 				deliver(fmt.Sprintf("%s@%d", m.Kind, m.Pos), m.Raw)
 			}
 		}
